@@ -182,7 +182,7 @@ def check(ctx):
                         ctx.ob("C14.d/G3", f"{f.short}: {node.attr}", ok,
                                "" if ok else f"reads {ast.unparse(node)} = '{m}', never defined by class {c.name}: the assignment raises AttributeError",
                                P.loc(f, node), node)
-    ctx.require("C14.d", "mangled private reads in setters", nset, 28)
+    ctx.require("C14.d", "mangled private reads in setters", nset, 20)
     n8 = G.g8_derived_state(ctx, P.all_classes, rule="C14.d/G8")
     ctx.require("C14.d", "derived-state instances", n8, 7)
 
